@@ -8,9 +8,10 @@
     entry is its position (Log.append assigns len+1, truncation keeps a
     prefix), messages carry the index explicitly as the dicts do.
 
-    The model is of the tree AFTER the two [fix:] commits of this property:
-    [_step_down] clears [voted_for] only when the term increases, and a
-    successful AppendEntries reply reports prev_log_index + len(entries). *)
+    The model is of the tree AFTER the three [fix:] commits of this property:
+    [_step_down] clears [voted_for] only when the term increases, a successful
+    AppendEntries reply reports prev_log_index + len(entries), and the leader
+    ignores AppendEntries replies that carry an earlier term. *)
 From HS Require Import Base.Prelude.
 Local Open Scope Z_scope.
 
@@ -302,6 +303,7 @@ Definition try_advance_commit (n : node) : node :=
 Definition handle_append_response (n : node) (t : Z) (success : bool) (f mi : Z) : node * list output :=
   if t >? term n then (step_down n t, [OElectionTimer])
   else if negb (role_eqb (role n) Leader) then (n, [])
+  else if t <? term n then (n, [])     (* reply to an AppendEntries of an earlier term: ignored (fix 3rd of this property) *)
   else if success then
     let n1 := set_match_index (set_next_index n (aset f (mi + 1) (next_index n))) (aset f mi (match_index n)) in
     (try_advance_commit n1, [])
